@@ -21,6 +21,31 @@ def both_index_search(ctx, key, fn, search_pats, variant, current_field):
         return
     sites = b.call_sites(*search_pats)
     loops = lib.for_loops_over(b, '.Reindex.queue')
+    if len(sites) == 1 and len(loops) == 1:
+        # single-loop form: `for t in once(current).chain(queued) { search(t) }` - the current table first, then the queue
+        lp = loops[0]
+        th = b.term(lp['head'])
+        sl = backward_slice(b, [op_place(th['a'][0])]) if th['a'] and op_place(th['a'][0]) is not None else None
+        chains = [x for x, t2 in (sl.call_sites if sl else []) if call_matches(t2, ['re:Iterator::chain$'])]
+        first_is_current = False
+        for x in chains:
+            t2 = b.term(x)
+            a0 = backward_slice(b, [op_place(t2['a'][0])]) if op_place(t2['a'][0]) is not None else None
+            a1 = backward_slice(b, [op_place(t2['a'][1])]) if len(t2['a']) > 1 and op_place(t2['a'][1]) is not None else None
+            if a0 and a1 and any(c.endswith('iter::once') or c.endswith('::once') for c in a0.calls) and current_field in a0.fields and '.Reindex.queue' in a1.fields and '.Reindex.queue' not in a0.fields:
+                first_is_current = True
+        sels, adaptors = lib.loop_source_selectors(b, lp)
+        trims = adaptors & {'take', 'skip', 'step_by', 'take_while', 'skip_while', 'nth', 'last', 'find', 'position', 'zip', 'rev'}
+        ctx.ob(key + 'a anchors %s' % fn, 'anchor', fn, 'one search call inside one loop over once(current table).chain(queued tables)', first_is_current, 'search sites %s chains %s' % (sites, chains))
+        ctx.ob(key + 'b current-index-searched %s' % fn, 'K1-must-pass', fn, 'the current table is searched on every path before the old ones (it is the first element of the chain)', first_is_current, '')
+        w = lib.loop_body_must_call(b, lp, sites)
+        pure = all(lib.pure_variant_selector(x) for x in sels if x is not None)
+        ctx.ob(key + 'c every-queued-table-searched %s' % fn, 'K2-loop-order', fn,
+               'for every queued older table of the right kind the search is called unconditionally (no skip by progress, size or position)', first_is_current and w is None and pure and not trims,
+               '' if w is None else 'iteration path that skips the search: ' + lib.short_path(b, w))
+        rets_none = b.find_path([0], b.return_blocks(), removed=set(sites) | {lp['head']} | core.error_exit_blocks(b))
+        ctx.ob(key + 'd absence-only-after-search %s' % fn, 'K1-must-pass', fn, 'no success return without having searched', rets_none is None, '')
+        return
     ctx.ob(key + 'a anchors %s' % fn, 'anchor', fn, 'two per-index search calls and one loop over Reindex.queue', len(sites) == 2 and len(loops) == 1, 'search sites %s loops %d' % (sites, len(loops)))
     if len(sites) != 2 or len(loops) != 1:
         return
